@@ -352,4 +352,60 @@ def gammaResidual (useY : Bool) (nzrad i : Nat) : Poly :=
   d ++ (List.range nm.length).flatMap (fun j =>
     Poly.smul (-(if useY then gamyInt nm i j else gamxInt nm i j)) (nollPoly (j + 1)))
 
+/-! ### exact pixels of the Noll modes at `rot = 0` (run at ℚ): discharge the non-degeneracy side conditions of `rms_unit` / `p2v_unit` -/
+
+section Exact
+variable {K : Type} [Add K] [Sub K] [Mul K] [Div K] [Neg K] [NatCast K] [OfScientific K] [HPow K Nat K] [LE K] [DecidableLE K]
+
+/-- `coord` / `circleMask` again, the same expressions without the (unused) `Transc` parameter, so that they also run at ℚ
+(`coord_eq_coordE`, `circleMask_eq_maskE` in `Props/C12.lean`: definitionally equal) -/
+def coordE (N i : Nat) : K := (((i : Nat) : K) - ((N : Nat) : K) / ((2 : Nat) : K) + (0.5 : K)) / (((N : Nat) : K) / ((2 : Nat) : K))
+
+def maskE (N row col : Nat) : K :=
+  let x : K := (((col : Nat) : K) + (0.5 : K)) - ((N : Nat) : K) / ((2 : Nat) : K)
+  let y : K := (((row : Nat) : K) + (0.5 : K)) - ((N : Nat) : K) / ((2 : Nat) : K)
+  let rad : K := ((N : Nat) : K) / ((2 : Nat) : K)
+  if x * x + y * y ≤ rad * rad then ((1 : Nat) : K) else ((0 : Nat) : K)
+
+/-- pixel `(row, col)` of `zernike_noll(j, N)` at `rot = 0`, divided by the (positive) Noll constant of the mode: the integer
+polynomial `nollPoly j` at the pixel centre times the two indicator factors of `zernike_nm` (clip and `circle(N/2, N)`, the same
+indicator in exact arithmetic — `clip_eq_mask`) -/
+def polyPixel (j N row col : Nat) : K :=
+  Poly.eval (nollPoly j) (coordE N col) (coordE N row) * maskE N row col * maskE N row col
+
+end Exact
+
+/-- some pixel differs from pixel (0, 0)  ⟺  the mode is not constant on the `N`-grid -/
+def nonconstPix (K : Type) [Add K] [Sub K] [Mul K] [Div K] [Neg K] [NatCast K] [OfScientific K] [HPow K Nat K] [LE K] [DecidableLE K]
+    [DecidableEq K] (j N : Nat) : Bool :=
+  (List.range N).any (fun r => (List.range N).any (fun c => decide (polyPixel (K := K) j N r c ≠ polyPixel (K := K) j N 0 0)))
+
+/-- some pixel is non-zero  ⟺  the mode is not identically zero on the `N`-grid -/
+def nonzeroPix (K : Type) [Add K] [Sub K] [Mul K] [Div K] [Neg K] [NatCast K] [OfScientific K] [HPow K Nat K] [LE K] [DecidableLE K]
+    [DecidableEq K] (j N : Nat) : Bool :=
+  (List.range N).any (fun r => (List.range N).any (fun c => decide (polyPixel (K := K) j N r c ≠ ((0 : Nat) : K))))
+
+/-- the `(j, N)` with `j ≤ 28`, `N ≤ 12` whose mode at `rot = 0` is CONSTANT on the grid (`norm="p2v"` divides by zero): every mode for
+`N = 1`; piston, defocus and ten more for `N = 2`; piston and Noll 15, 25 for `N = 3`; none for `4 ≤ N ≤ 12` -/
+def constExcl (j N : Nat) : Bool :=
+  N == 1 || (N == 2 && [1, 4, 6, 11, 12, 14, 15, 22, 24, 25, 26, 28].contains j) || (N == 3 && [1, 15, 25].contains j)
+
+/-- the `(j, N)` with `j ≤ 28`, `N ≤ 12` whose mode at `rot = 0` is identically ZERO on the grid (`norm="rms"` divides by zero) -/
+def zeroExcl (j N : Nat) : Bool :=
+  (N == 1 && !([1, 4, 11, 22].contains j)) || (N == 2 && [4, 6, 12, 15, 22, 24, 25, 28].contains j) || (N == 3 && [15, 25].contains j)
+
+/-! ### `int(numpy.round(x))` of the count path of `zernikeArray` -/
+
+/-- `int(numpy.round(num/den))` for a non-negative rational: nearest integer, ties to even -/
+def npRound (num den : Nat) : Nat :=
+  let q := num / den
+  let r2 := 2 * (num % den)
+  if r2 < den then q else if den < r2 then q + 1 else if q % 2 = 0 then q else q + 1
+
+/-- the count path of `zernikeArray` for a non-negative float count `J = Jn/Jd` and size `N = Nn/Nd`:
+`maxJ = int(numpy.round(J))`, `N = int(numpy.round(N))`, then modes `1 … maxJ` -/
+def zernikeArrayCountF {K : Type} [Add K] [Sub K] [Mul K] [Div K] [Neg K] [NatCast K] [OfScientific K] [HPow K Nat K] [Transc K]
+    [LE K] [DecidableLE K] (Jn Jd Nn Nd : Nat) (norm : Norm) (rot : K) : List (List K) :=
+  zernikeArrayCount (npRound Jn Jd) (npRound Nn Nd) norm rot
+
 end AoVerif.Model.Zernike
